@@ -36,7 +36,10 @@ def json_table(m):
                 if ret is not None and isinstance(ret.value, ast.Call):
                     cls = (call_name(ret.value) or "").split(".")[0]
                     val = ret.value.args[0] if ret.value.args else None
-                if types:
+                # an arm of the dispatch returns a node; a block that only checks or records something about the object
+                # (a cycle guard in front of the chain) decides nothing about its node class
+                arm = any(isinstance(x, ast.Return) for b_ in s.body for x in ast.walk(b_))
+                if types and arm:
                     out.append((types, cls, val, s))
                 walk(s.orelse)
     walk(f.node.body)
